@@ -120,6 +120,10 @@ pub fn eval(c: &Case, st: &mut Stats, excuse_kf: bool) -> Result<Verdict, String
     let mut res_l: Vec<OpResult> = Vec::new();
     let mut partial_match = false;
     for op in &c.continuation {
+        // composite operations produce several calls but one result: not comparable, skipped
+        if matches!(op, Op::Churn { .. } | Op::Burst { .. } | Op::Transfer { .. } | Op::GhostAdd { .. } | Op::GhostRemove { .. } | Op::Read(_) | Op::Rebuild(_)) {
+            continue;
+        }
         let r = it.apply(op);
         if matches!(r, OpResult::Skipped | OpResult::Read) {
             continue;
